@@ -101,3 +101,88 @@ def ghost_lfp(w, cpre, tE, tS, holds, goal, name, log):
     Y = w.ghost(name, w.STATE)
     log.append(f'ghost {name} := mu Y. \\/_k nu X.(h_k /\\ CPre X) \\/ CPre Y \\/ goal')
     return LfpSet(w, cpre, tE, tS, holds, goal, Y, log, name)
+
+
+# ---------------------------------------------------------------------------
+# Rabin(1) side
+
+class LfpInside:
+    """X denotes  mu X. (CPre X \\/ goal) /\\ inside   (contract of
+    `gr1._attractor_inside`)."""
+
+    def __init__(self, w, cpre, tE, tS, inside, goal, X, log, name):
+        self.w, self.cpre, self.tE, self.tS = w, cpre, tE, tS
+        self.inside, self.goal, self.X = inside, goal, X
+        self.log, self.name = log, name
+
+    def F(self, P):
+        return z3.And(z3.Or(self.cpre(self.tE, self.tS, P), self.goal),
+                      self.inside)
+
+    def prefixed_fact(self):
+        return spec.subset(self.w, self.F(self.X), self.X)
+
+    def least_at(self, P, tag=''):
+        self.log.append(f'{self.name}.least at {tag}')
+        w = self.w
+        return z3.Implies(spec.subset(w, self.F(P), P),
+                          spec.subset(w, self.X, P))
+
+
+def ghost_lfp_inside(w, cpre, tE, tS, inside, goal, name, log, assume=True):
+    X = w.ghost(name, w.STATE)
+    g = LfpInside(w, cpre, tE, tS, inside, goal, X, log, name)
+    log.append(f'ghost {name} := mu X.(CPre X \\/ goal) /\\ inside')
+    if assume:
+        w.assume(g.prefixed_fact())
+    return g
+
+
+class CycSet:
+    """Y denotes  nu Y. /\\_j mu X. (CPre X \\/ g_j) /\\ CPre Y /\\ g
+    (contract of `gr1._cycle_inside`, with g = CPre z \\/ hold)."""
+
+    def __init__(self, w, cpre, tE, tS, goals, g, Y, log, name):
+        self.w, self.cpre, self.tE, self.tS = w, cpre, tE, tS
+        self.goals, self.g, self.Y = list(goals), g, Y
+        self.log, self.name = log, name
+
+    def inside_of(self, Q):
+        return z3.And(self.cpre(self.tE, self.tS, Q), self.g)
+
+    def postfixed_at(self, j, P, tag=''):
+        """Instance of: Y <= LFPI_j(CPre Y /\\ g), in the form 'Y is below every
+        P closed under X -> (CPre X \\/ g_j) /\\ CPre Y /\\ g'."""
+        self.log.append(f'{self.name}.postfixed[{j}] at {tag}')
+        w = self.w
+        FP = z3.And(z3.Or(self.cpre(self.tE, self.tS, P), self.goals[j]),
+                    self.inside_of(self.Y))
+        return z3.Implies(spec.subset(w, FP, P), spec.subset(w, self.Y, P))
+
+    def greatest_at(self, Q, lfps, tag=''):
+        """Instance of: (/\\_j Q <= LFPI_j(CPre Q /\\ g)) => Q <= Y, guarded by
+        the parameters of the supplied ghost least fixpoints."""
+        self.log.append(f'{self.name}.greatest at {tag}')
+        w = self.w
+        assert len(lfps) == len(self.goals)
+        guard, below = list(), list()
+        for j, lf in enumerate(lfps):
+            assert isinstance(lf, LfpInside)
+            guard.append(spec.equiv(w, lf.goal, self.goals[j]))
+            guard.append(spec.equiv(w, lf.inside, self.inside_of(Q)))
+            below.append(spec.subset(w, Q, lf.X))
+        return z3.Implies(z3.And(*(guard + below)),
+                          spec.subset(w, Q, self.Y))
+
+    def same_as(self, other):
+        w = self.w
+        self.log.append(f'congruence {self.name} ~ {other.name}')
+        guard = [spec.equiv(w, a, b) for a, b in zip(self.goals, other.goals)]
+        guard.append(spec.equiv(w, self.g, other.g))
+        return z3.Implies(z3.And(*guard), spec.equiv(w, self.Y, other.Y))
+
+
+def ghost_cyc(w, cpre, tE, tS, goals, g, name, log):
+    Y = w.ghost(name, w.STATE)
+    log.append(f'ghost {name} := nu Y. /\\_j mu X.(CPre X \\/ g_j) /\\ CPre Y /\\ g')
+    return CycSet(w, cpre, tE, tS, goals, g, Y, log, name)
